@@ -291,8 +291,40 @@ let undefined_field_call (p : parsed) (observed : S.t) : bool =
             | _ -> false) calls
       | _ -> false) resps
 
+(* universal part: every invocation carries only arguments the field of the node's object type
+   declares, and every required (non-null) one of them, with a value *)
+let bad_argument_call (p : parsed) (observed : S.t) : string option =
+  let resps = (match observed with S.L l -> l | _ -> []) in
+  let graph = List.map (fun (k, nd) -> (int_of_nat k, nd)) p.graph in
+  let verdict_of_call = function
+    | S.L [S.A "c"; n; fn; S.L args] ->
+      (match List.assoc_opt (S.int n) graph with
+       | Some nd ->
+         (match Model.get_field_def p.schema nd.n_gotype (nat_of_int (S.int fn)) with
+          | Some fd ->
+            let declared = List.map (fun d -> int_of_nat d.a_name) fd.f_args in
+            let given = List.filter_map (function S.L [an; v] -> Some (S.int an, v) | _ -> None) args in
+            if List.exists (fun (a, _) -> not (List.mem a declared)) given
+            then Some "fails:resolver-invoked-with-an-argument-its-field-does-not-declare"
+            else if List.exists (fun d -> Model.is_nonnull d.a_type &&
+                                          (match List.assoc_opt (int_of_nat d.a_name) given with
+                                           | None | Some (S.A "null") -> true
+                                           | Some _ -> false)) fd.f_args
+            then Some "fails:resolver-invoked-without-a-required-argument"
+            else None
+          | None -> None)
+       | None -> None)
+    | _ -> None in
+  List.fold_left (fun acc r ->
+      match acc, r with
+      | Some _, _ -> acc
+      | None, S.L [S.A "resp"; _; _; S.L calls] ->
+        List.fold_left (fun acc c -> match acc with Some _ -> acc | None -> verdict_of_call c) None calls
+      | None, _ -> None) None resps
+
 let oracle_c10 (p : parsed) (observed : S.t) : string =
   if undefined_field_call p observed then "fails:resolver-invoked-for-a-field-its-type-does-not-define" else
+  match bad_argument_call p observed with Some v -> v | None ->
   match p.defect with
   | None -> "holds"
   | Some (kind, id, x) ->
